@@ -452,8 +452,10 @@ pub fn build_pipeline<I: DiffItem>(values: Vector<Val>, stream: BoxS<I>, stages:
                 let (ls, c) = make_limit(fifo, Some(0), false, input_tap.clone());
                 ctl = Some(c);
                 let ad = obs.dynamic_head(ls);
-                if is_last {
+                if is_last && !fifo {
                     // used on its own: the view starts empty and is built from the diffs alone
+                    // (with a fifo limit stream the stand-alone adapter is taken apart with into_parts
+                    // instead, whose values must be that same empty view)
                     (Vector::new(), Box::pin(ad))
                 } else {
                     // chained as the adapter itself: the next stage gets what into_parts returns
@@ -465,8 +467,10 @@ pub fn build_pipeline<I: DiffItem>(values: Vector<Val>, stream: BoxS<I>, stages:
                 let (ls, c) = make_limit(fifo, Some(0), true, input_tap.clone());
                 ctl = Some(c);
                 let ad = obs.dynamic_tail(ls);
-                if is_last {
+                if is_last && !fifo {
                     // used on its own: the view starts empty and is built from the diffs alone
+                    // (with a fifo limit stream the stand-alone adapter is taken apart with into_parts
+                    // instead, whose values must be that same empty view)
                     (Vector::new(), Box::pin(ad))
                 } else {
                     // chained as the adapter itself: the next stage gets what into_parts returns
@@ -478,8 +482,10 @@ pub fn build_pipeline<I: DiffItem>(values: Vector<Val>, stream: BoxS<I>, stages:
                 let (ls, c) = make_limit(fifo, None, false, input_tap.clone());
                 ctl = Some(c);
                 let ad = obs.dynamic_skip(ls);
-                if is_last {
+                if is_last && !fifo {
                     // used on its own: the view starts empty and is built from the diffs alone
+                    // (with a fifo limit stream the stand-alone adapter is taken apart with into_parts
+                    // instead, whose values must be that same empty view)
                     (Vector::new(), Box::pin(ad))
                 } else {
                     // chained as the adapter itself: the next stage gets what into_parts returns
